@@ -223,13 +223,14 @@ def build(S, tier):
         type_name = "Operation(opaque)"
 
         def __init__(self, name, log):
-            self.name, self.log, self.out = name, log, None
+            self.name, self.log, self.out, self.outs = name, log, None, []
 
         def py_getattr(self, I, name):
             if name == "calculate":
                 def calc(I_, a, k):
                     self.log.append(self.name)
-                    self.out = Tensor((1, 3), [I_.path.fresh(f"{self.name}_{d}") for d in range(3)])
+                    self.out = Tensor((1, 3), [I_.path.fresh(f"{self.name}_{len(self.outs)}_{d}") for d in range(3)])
+                    self.outs.append(self.out)
                     return self.out
                 return Builtin("calculate", calc)
             raise AttributeError(name)
@@ -237,6 +238,7 @@ def build(S, tier):
     def run_comp(I):
         log = []
         parts = [OpaqueOp(f"op{j}", log) for j in range(3)]
+        parts = parts + [parts[0]]        # the same operation object may occur twice (op * n): evaluated twice, independently
         comp = I.call(I.get_class(OPS + "composite.CompositeOperation"), [parts], {})
         ctx, _, _ = make_ctx(I)
         r = I.call(I.getattr(comp, "calculate"), [ctx], {})
@@ -254,10 +256,11 @@ def build(S, tier):
         v = p.value
         r = v["r"]
         ok = isinstance(r, Tensor) and r.shape == (1, 3)
-        S.prove(f"{fq}#ensures.each_part_once_in_order@{i}", v["log"] == ["op0", "op1", "op2"], kind="ensures", why=str(v["log"]))
+        S.prove(f"{fq}#ensures.each_part_once_in_order@{i}", v["log"] == ["op0", "op1", "op2", "op0"], kind="ensures", why=str(v["log"]))
         S.prove(f"{fq}#ensures.shape@{i}", ok, kind="ensures")
         if ok:
-            S.prove(f"{fq}#ensures.sum_of_parts@{i}", z3.And([R(r.get((0, d))) == sum(R(q.out.get((0, d))) for q in v["parts"]) for d in range(3)]), hyps=p.pc)
+            outs = [o for q in v["parts"][:3] for o in q.outs]
+            S.prove(f"{fq}#ensures.sum_of_parts@{i}", z3.And([R(r.get((0, d))) == sum(R(o.get((0, d))) for o in outs) for d in range(3)] + [z3.BoolVal(len(outs) == 4)]), hyps=p.pc)
 
     # ------------------------------------------------------------------ deformations
     def run_def(I, cls, masked, involute=True):
